@@ -263,11 +263,78 @@ def _worker(payload):
     return res
 
 
+HISTORY_ROOTS = ["root", "root/child", "outside", "root_sib"]
+
+
+def _history_worker(payload):
+    """root histories: the application object is long-lived and its root can be re-pointed (draw_lineage_graph does it on every call).  For every
+    ordered pair (R1, R2) of four directories: serve warm-up requests on every POST route under R1, re-point the root to R2, then judge every path of
+    <= 2 segments (all anchors) on every POST route against R2 - whatever was learned under R1 must not widen what R2 discloses."""
+    pair_idx, ctx = payload
+    from pathlib import Path
+
+    res = runner.Res()
+    pairs = [(a, b) for a in HISTORY_ROOTS for b in HISTORY_ROOTS if a != b]
+    r1, r2 = pairs[pair_idx]
+    base, markers = build_tree()
+    cwd = os.getcwd()
+    try:
+        client = Client(base, "abs")
+
+        def point(rel):
+            client.root_abs = os.path.join(base, rel)
+            client.d.app.root_path = Path(client.root_abs)
+            os.environ["SQLLINEAGE_DIRECTORY"] = client.root_abs
+
+        point(r1)
+        for route in ROUTES:  # warm-up: one request inside R1 and one refused, per route
+            for path in (os.path.join(base, r1, "in.sql") if route != "dir_d" else os.path.join(base, r1), os.path.join(base, "top.sql")):
+                judge(client, markers, route, path)
+        point(r2)
+        for anchor, path in post_paths(2, base):
+            for route in ROUTES:
+                res.evals += 1
+                d = judge(client, markers, route, path)
+                if d is not None and len(res.violations) < 10:
+                    res.violation("post_after_root_change", {"route": route, "root_history": [r1, r2], "path": path.replace(base, "<BASE>")}, d)
+        res.labels["post_requests(root history)"] += res.evals
+        res.extra["nt_extra"] = res.evals
+    finally:
+        os.chdir(cwd)
+        shutil.rmtree(base, ignore_errors=True)
+    return res
+
+
 def replay(case):
+    if case.get("root_history"):
+        return _replay_history(case)
     base, markers = build_tree()
     cwd = os.getcwd()
     try:
         client = Client(base, case.get("root_setting", "abs"))
+        d = judge(client, markers, case["route"], case["path"].replace("<BASE>", base))
+        return None if d is None else {"kind": "replay", "case": case, "detail": d}
+    finally:
+        os.chdir(cwd)
+        shutil.rmtree(base, ignore_errors=True)
+
+
+def _replay_history(case):
+    from pathlib import Path
+
+    base, markers = build_tree()
+    cwd = os.getcwd()
+    try:
+        client = Client(base, "abs")
+        r1, r2 = case["root_history"]
+        for k, rel in enumerate((r1, r2)):
+            client.root_abs = os.path.join(base, rel)
+            client.d.app.root_path = Path(client.root_abs)
+            os.environ["SQLLINEAGE_DIRECTORY"] = client.root_abs
+            if k == 0:
+                for route in ROUTES:
+                    for path in (os.path.join(base, r1, "in.sql") if route != "dir_d" else os.path.join(base, r1), os.path.join(base, "top.sql")):
+                        judge(client, markers, route, path)
         d = judge(client, markers, case["route"], case["path"].replace("<BASE>", base))
         return None if d is None else {"kind": "replay", "case": case, "detail": d}
     finally:
@@ -290,6 +357,7 @@ def run(ctx):
     n = runner.NCPU
     payloads = [(i, n, nseg, rs, ctx) for rs in ("abs", "rel", "dot") for i in range(n)]
     res = runner.merge_all(runner.pmap(_worker, payloads))
+    res.merge(runner.merge_all(runner.pmap(_history_worker, [(i, ctx) for i in range(12)], fresh=True)))
     res.violations = _dedup(res.violations)
     res.extra["max_segments"] = nseg
     return res
